@@ -267,7 +267,11 @@ def visitor_meaning(rep, ex: Explorer):
     def visit_model(I, args, kwargs, node):
         x = args[0] if args else None
         I.log("visit", node, arg=x)
-        return FormulaV(("opaque", ("visit", desc(x))), "pysmt")
+        d = desc(x)
+        if isinstance(d, tuple) and d[:1] == ("mcall",) and d[2] in ("condition", "myid"):
+            # the recursive list rules: the value is the list built from the rest of the input
+            return I.alloc(HList([("sym", ("rest", d[2]))]))
+        return FormulaV(("opaque", ("visit", d)), "pysmt")
 
     from ..absvals import ExtV
 
@@ -353,6 +357,47 @@ def visitor_meaning(rep, ex: Explorer):
             s = "".join(x if isinstance(x, str) else ("<C>" if "consequent" in repr(x) else "<A>" if "antecedent" in repr(x) else "<?>") for x in parts)
             rep.check(s == "(<C>|<A>)", "VISIT.meaning", site, "text representation", "the text is (consequent|antecedent), which re-parses to the same conditional", extracted=s, required="(<C>|<A>)", function=site)
     rep.floor("visitCondition paths", n, 1)
+    # VISIT.order: the list rules put their own item in front of what the rest of the input yields
+    for m, rest, what in (("visitCondition", "condition", "conditional"), ("visitMyid", "myid", "declared atom")):
+        qual, paths = run(m)
+        site = fn_label(prog, qual)
+        k = 0
+        for p in paths:
+            if p.outcome[0] != "return":
+                continue
+            more = None
+            for key, val in p.decisions:
+                if key[0] == "isnone" and isinstance(key[1], tuple) and key[1][:1] == ("mcall",) and key[1][2] == rest:
+                    more = not val
+            vw = view(p.state, p.outcome[1])
+            segs = list(vw[1]) if isinstance(vw, tuple) and vw[0] == "list" else None
+            k += 1
+            if segs is None or more is None:
+                raise AnalysisError(f"{site}: result of the list rule is not a list decided by the presence of a rest")
+            own = len(segs) >= 1 and segs[0][0] == "one"
+            tail = segs[1:] == [("sym", ("rest", rest))] if more else segs[1:] == []
+            rep.check(own and tail, "VISIT.order", site, f"{'with' if more else 'without'} rest", f"the {what} read here comes first, followed by those of the rest of the input (file order, none lost)",
+                      extracted=f"{len(segs)} segment(s): {[sg[0] for sg in segs]}", required="[own] + rest" if more else "[own]", function=site)
+        rep.floor(f"{m} paths", k, 2)
+    # REJECT.signature: duplicate declarations and the reserved names Top / Bottom are rejected
+    qual, paths = run("visitSignature")
+    site = fn_label(prog, qual)
+    seen = {"duplicate": None, "Top": None, "Bottom": None}
+    for p in paths:
+        for key, val in p.decisions:
+            kind = None
+            if key[0] == "cmp" and key[1] == "==" and "distinct" in repr(key):
+                kind, bad = "duplicate", (val is False)
+            elif key[0] == "in" and key[1] == ("c", "Top"):
+                kind, bad = "Top", (val is True)
+            elif key[0] == "in" and key[1] == ("c", "Bottom"):
+                kind, bad = "Bottom", (val is True)
+            if kind and bad:
+                seen[kind] = (seen[kind] or True) and p.outcome[0] == "raise" if seen[kind] is not False else False
+                if p.outcome[0] != "raise":
+                    seen[kind] = False
+    for kind, msg in (("duplicate", "an atom declared twice"), ("Top", "the reserved name Top as atom"), ("Bottom", "the reserved name Bottom as atom")):
+        rep.check(seen[kind] is True, "REJECT.signature", site, kind, f"a signature with {msg} is rejected", extracted="rejected" if seen[kind] else ("accepted" if seen[kind] is False else "not tested"), required="ValueError", function=site)
     # VISIT.keys
     fi = prog.function(f"{VIS}.visitConditionals")
     site = fn_label(prog, fi.qualname)
